@@ -8,7 +8,6 @@ package c05
 
 import (
 	"fmt"
-	"os"
 	"sort"
 	"strings"
 	"testing"
@@ -346,9 +345,6 @@ func (x *explorer) runPass(t *testing.T) {
 				p.NDWidth = res.ndWidth
 				if len(p.Succ) > 1 {
 					x.ndOutcomes++
-					if os.Getenv("C05_DEBUG_ND") != "" {
-						fmt.Println("E2 ND", prefix, sortedKeys(p.Succ))
-					}
 				}
 			}
 		}
